@@ -547,6 +547,22 @@ func (x *Exec) applyContract(p *Path, ct *Contract, vars map[string]SV, results 
 		if cfs.all || (cfs.tree && !x.cur.frame.tree) {
 			x.oblig(p, tag+"/frame", "false", x.cur.ct.Props, x.pos(in))
 		}
+		// a callee that writes along a tree-form path: every container on its path is fresh or within the caller's frame
+		for _, pf := range cfs.paths {
+			one := frameSet{paths: []pathFrame{pf}}
+			in1 := one.inPath(pre, "fc_r")
+			allowed := []string{fmt.Sprintf("(>= fc_r (next %s))", p.H0)}
+			for _, s := range append(append([]string{}, x.cur.frame.lists...), x.cur.frame.objs...) {
+				allowed = append(allowed, fmt.Sprintf("(= fc_r %s)", s))
+			}
+			if len(x.cur.frame.paths) > 0 {
+				allowed = append(allowed, x.cur.frame.inPath(p.H0, "fc_r"))
+			}
+			if x.cur.frame.tree {
+				continue
+			}
+			x.oblig(p, tag+"/frame/path-within-frame", fmt.Sprintf("(forall ((fc_r Int)) (! (=> %s (or %s)) :pattern (%s)))", in1, strings.Join(allowed, " "), in1), x.cur.ct.Props, x.pos(in))
+		}
 	}
 	// panic domain
 	pc := ct.PanicsIff
@@ -592,7 +608,7 @@ func (x *Exec) applyContract(p *Path, ct *Contract, vars map[string]SV, results 
 			p.assume(ax)
 		}
 		x.seedFrame(p, &cfs, pre, post)
-		if !cfs.all && !cfs.tree && len(cfs.lists)+len(cfs.objs)+len(cfs.arrs)+len(cfs.maps) == 0 {
+		if !cfs.all && !cfs.tree && len(cfs.lists)+len(cfs.objs)+len(cfs.arrs)+len(cfs.maps)+len(cfs.paths) == 0 {
 			p.assume(fmt.Sprintf("(ext %s %s)", pre, post)) // nothing that existed was modified
 			p.prevH = ""
 			x.extStep(p, post, "ghost")
